@@ -260,7 +260,7 @@ func runC14(env *lib.Env, rep *lib.Report) {
 	maxM := 3
 	seeds := []string{"t1-empty", "t1x8", "t1x8-upper-deleted", "interleaved", "t4k1", "t4k2", "t4k3", "t5-null-later", "small:t1x40", "t1x8-maxrow-upper", "t1x12+refused+t2+restart"}
 	if env.Thorough() {
-		maxM = 4
+		maxM = 6
 		seeds = append(seeds, "t1x30", "t1x8+t2t3-crashed", "t1x12+t2x1")
 	}
 	// the window of row counts in which a table at real page capacities fills and splits its root interior page:
@@ -395,7 +395,17 @@ func runC14(env *lib.Env, rep *lib.Report) {
 		if !w.do(mkInsert(w.model, "t1", 1, false)) {
 			return
 		}
-		w.checkAll("after a statement following the failed one")
+		if !w.checkAll("after a statement following the failed one") {
+			return
+		}
+		// ... also across a crash: whatever the refused statement took or stamped without logging it must not cost
+		// the acknowledged statement that followed its durability
+		c.Logf("CRASH (after the statement that followed the refused one)")
+		w = w.recoverFrom(w.image(), false)
+		if c.Failed() {
+			return
+		}
+		w.checkAll("after the refused statement, an acknowledged INSERT, a crash and recovery")
 	})
 }
 
